@@ -378,6 +378,12 @@ fn stream_obligations(pie: &P) -> Result<(), Fail> {
   let log0 = &pie.tracker().0; let log1 = &pie.tracker().1 .0;
   if log0.ev != log1.ev { fail!("C17", "C17.bounded.composite_children_get_identical_streams", "composite children saw different streams"); }
   if let Err(w) = log0.well_nested() { fail!("C17", "C17.bounded.event_stream_well_nested", "{}", w); }
+  // the build that just completed (logs are cleared before each build) is reported: exactly one build-start and one build-end, the
+  // build-end last (`schedule_tasks_affected_by` calls of a bottom-up build legitimately precede its build-start)
+  let starts = log0.ev.iter().filter(|e| e.kind == "build" && e.start).count();
+  let ends_n = log0.ev.iter().filter(|e| e.kind == "build" && !e.start).count();
+  let end_last = log0.ev.last().map(|e| e.kind == "build" && !e.start).unwrap_or(false);
+  if starts != 1 || ends_n != 1 || !end_last { fail!("C17", "C17.bounded.every_completed_build_emits_its_start_and_end", "a completed build produced {} build-start and {} build-end events ({} events in all; last {:?})", starts, ends_n, log0.ev.len(), log0.ev.last().map(|e| (&e.kind, e.start))); }
   let ran = RAN.with(|r| r.borrow().clone());
   let ends: Vec<(String, String)> = log0.ev.iter().filter(|e| !e.start && e.kind == "execute").map(|e| (e.subject.clone(), e.output.clone())).collect();
   if ran != ends { fail!("C17", "C17.bounded.every_execution_appears_once_with_its_output", "executions that ran {:?}, execute-end events {:?}", ran, ends); }
@@ -467,22 +473,30 @@ pub fn run_case(prog: &Vec<Vec<Step>>, hist: &[Act]) -> Result<(), Fail> {
         let errs = match r { Ok(n) => n, Err(e) => { let m = panic_msg(e); if flaky { fail!("C18", "C18.bounded.failed_check_never_aborts_the_build", "bottom-up build with failing checkers panicked: {}", m); } if m.starts_with("BUG") { fail!("C19", "C19.bounded.no_internal_invariant_error", "bottom-up build panicked: {}", m); } fail!("C20", "C20.bounded.well_formed_program_never_aborts", "bottom-up build of a well-formed program panicked: {}", m); } };
         stream_obligations(&pie)?;
         let ev = pie.tracker().0.ev.clone();
-        // scheduling follows the verdict of the dependency's own checker: not consistent (or failed) <=> `schedule` is the next event
-        for (i, e) in ev.iter().enumerate() {
-          if !e.start && (e.kind == "check_read" || e.kind == "check_req") {
-            let next_is_schedule = ev.get(i + 1).map(|n| n.kind == "schedule" && n.subject == e.subject).unwrap_or(false);
-            if e.verdict == "error" && !next_is_schedule { fail!("C18", "C18.bounded.failed_check_schedules_the_task", "the check of a dependency of {} failed with an error, but the task was not scheduled", e.subject); }
-            if e.verdict == "inconsistent" && !next_is_schedule { fail!("C09", "C09.bounded.inconsistent_dependency_schedules_its_task", "a dependency of {} was reported inconsistent, but the task was not scheduled", e.subject); }
-            if e.verdict == "consistent" && next_is_schedule { fail!("C04", "C04.bounded.consistent_dependency_does_not_schedule", "a dependency of {} was reported consistent, yet the task was scheduled", e.subject); }
-          }
-          if e.kind == "schedule" {
-            let prev_ok = i > 0 && !ev[i - 1].start && (ev[i - 1].kind == "check_read" || ev[i - 1].kind == "check_req") && ev[i - 1].subject == e.subject && ev[i - 1].verdict != "consistent";
-            if !prev_ok { fail!("C04", "C04.bounded.scheduled_only_for_an_inconsistent_dependency", "{} was scheduled without a preceding inconsistent check of one of its dependencies", e.subject); }
-            if !ev[i..].iter().any(|x| x.start && x.kind == "execute" && x.subject == e.subject) && !ev[..i].iter().any(|x| x.start && x.kind == "execute" && x.subject == e.subject) { fail!("C04", "C04.bounded.scheduled_task_is_executed", "{} was scheduled but never executed in this build", e.subject); }
-          }
-        }
+        // every failed check is reported (C18), whatever else happens to the task
         let failed_checks = ev.iter().filter(|e| !e.start && e.verdict == "error").count();
         if errs != failed_checks { fail!("C18", "C18.bounded.check_errors_are_reported", "{} checks failed with an error during the bottom-up build, the session reports {} dependency check errors", failed_checks, errs); }
+        // scheduling follows the verdict of the dependency's own checker: not consistent (or failed) <=> the task is scheduled: `schedule`
+        // is the next event, or the task is already waiting (scheduled earlier in this build and not executed yet)
+        {
+          let mut waiting_now: Vec<String> = vec![];
+          for (i, e) in ev.iter().enumerate() {
+            if !e.start && (e.kind == "check_read" || e.kind == "check_req") {
+              let next_is_schedule = ev.get(i + 1).map(|n| n.kind == "schedule" && n.subject == e.subject).unwrap_or(false);
+              let scheduled = next_is_schedule || waiting_now.contains(&e.subject);
+              if e.verdict == "error" && !scheduled { fail!("C18", "C18.bounded.failed_check_schedules_the_task", "the check of a dependency of {} failed with an error, but the task was not scheduled", e.subject); }
+              if e.verdict == "inconsistent" && !scheduled { fail!("C09", "C09.bounded.inconsistent_dependency_schedules_its_task", "a dependency of {} was reported inconsistent, but the task was not scheduled", e.subject); }
+              if e.verdict == "consistent" && next_is_schedule { fail!("C04", "C04.bounded.consistent_dependency_does_not_schedule", "a dependency of {} was reported consistent, yet the task was scheduled", e.subject); }
+            }
+            if e.kind == "schedule" {
+              let prev_ok = i > 0 && !ev[i - 1].start && (ev[i - 1].kind == "check_read" || ev[i - 1].kind == "check_req") && ev[i - 1].subject == e.subject && ev[i - 1].verdict != "consistent";
+              if !prev_ok { fail!("C04", "C04.bounded.scheduled_only_for_an_inconsistent_dependency", "{} was scheduled without a preceding inconsistent check of one of its dependencies", e.subject); }
+              if !ev[i..].iter().any(|x| x.start && x.kind == "execute" && x.subject == e.subject) && !ev[..i].iter().any(|x| x.start && x.kind == "execute" && x.subject == e.subject) { fail!("C04", "C04.bounded.scheduled_task_is_executed", "{} was scheduled but never executed in this build", e.subject); }
+              if !waiting_now.contains(&e.subject) { waiting_now.push(e.subject.clone()); }
+            }
+            if e.kind == "execute" && e.start { waiting_now.retain(|w| *w != e.subject); }
+          }
+        }
         // order: a scheduled task is never popped for execution while a scheduled task it (transitively) requires is still waiting
         {
           let mut waiting: Vec<String> = vec![]; let mut depth = 0i32; let mut top_start = 0usize;
